@@ -555,6 +555,19 @@ def mon_c06_cancel(case, verdict, chk):
                               {"kind": "impl-counterexample", "case": slim(case), "step": sid})
     mon_c05_engine(case, verdict, chk)
     if res.get("output_id"):
+        # an output returned after the cancellation must be a genuine one.  The plugin-side log determines the step outcomes
+        # only for steps whose life was over when the cancellation fired: a step that was deployed, waiting or executing at
+        # that moment may end as closed, as crashed (closure timeout) or with the output it was about to produce, and the
+        # engine's view may differ from the plugin's (false alarms of the thorough tier: engine-30-27, engine-30-185).
+        # The oracle is applied when nothing of any step happens after the cancellation and no step was executing at it.
+        alive = [e for e in log if e["seq"] > cseq and e["ev"] in ("deploy", "deploy-fail", "exec-start", "exec-end", "cancel-signal")]
+        executing = [sid for sid in steps
+                     if [e for e in log if e["ev"] == "exec-start" and e["src"] == sid and e["seq"] < cseq]
+                     and not [e for e in log if e["ev"] == "exec-end" and e["src"] == sid and e["seq"] < cseq]]
+        if alive or executing:
+            chk.hist["c06:output-after-cancel:outcomes-undetermined"] = chk.hist.get("c06:output-after-cancel:outcomes-undetermined", 0) + 1
+            return
+        chk.hist["c06:output-after-cancel:checked"] = chk.hist.get("c06:output-after-cancel:checked", 0) + 1
         c2 = dict(case, cancel_after_ms=-1)
         try:
             _mon_c03_engine(c2, verdict, chk)
